@@ -14,4 +14,71 @@ def run(ctx):
 
 
 def extra(ctx, res):
+    import ast
+
+    from .. import cmpshape as M
+    from .. import rules_container as RC
+    from ..kinds import Atom, Tup, elem_of
+    from ..model import AnalysisError, loc, norm, walk_no_nested
+    from ._clients import DEGREE, check_filter_clients
+
+    cls = "TemporalHypergraph"
+    res.rules.update({
+        "P-TIMEVAL": "the record-creating store is dominated by the rejection of non-integer and of negative times",
+        "M-WINDOW": "a time compared against a window is `lo <= t < hi`",
+        "K-UNIQ": "the no-repeats guard of a weighted batch ranges over (time, edge) records, not over node tuples",
+        "P-ABSENT": "snapshot completion adds a node under the negated membership test",
+    })
+    RC.check_time_validation(ctx, res)
+    for m in ("get_edges", "subhypergraph", "aggregate"):
+        M.check_window(ctx, res, f"{cls}.{m}")
+    check_uniq(ctx, res, cls, "TIME")
+    # snapshot completion: add_node guarded by check_node must sit on the negated branch
+    v = ctx.view(f"{cls}.subhypergraph")
+    found = 0
+    for n in walk_no_nested(v.fi.node):
+        if isinstance(n, ast.Call) and isinstance(n.func, ast.Attribute) and n.func.attr == "add_node":
+            found += 1
+            ifs = [i for i in v.enclosing_all(n, (ast.If,))]
+            verdict, why = "unknown", "add_node not guarded by a check_node test"
+            for i in ifs:
+                t = i.test
+                neg = False
+                while isinstance(t, ast.UnaryOp) and isinstance(t.op, ast.Not):
+                    neg = not neg
+                    t = t.operand
+                if isinstance(t, ast.Call) and isinstance(t.func, ast.Attribute) and t.func.attr == "check_node" and norm(t.func.value) == norm(n.func.value):
+                    in_body = any(n is x for b in i.body for x in ast.walk(b))
+                    absent_branch = (neg and in_body) or (not neg and not in_body)
+                    verdict = "ok" if absent_branch else "violation"
+                    why = "" if absent_branch else "add_node is executed only when the node is already present: missing nodes are never added to the snapshot"
+            # an unguarded add_node is fine too (add_node is idempotent)
+            if verdict == "unknown" and not ifs:
+                verdict, why = "ok", ""
+            res.add("P-ABSENT", v.fi.short, norm(n), "add-if-absent", verdict, why, loc(v.fi, n))
+    if not found:
+        raise AnalysisError("TemporalHypergraph.subhypergraph: no add_node call (anchor of P-ABSENT vanished)")
+    check_filter_clients(ctx, res, DEGREE[:2])
     return res
+
+
+def check_uniq(ctx, res, cls, component):
+    import ast
+
+    from ..kinds import Atom, Seq, Tup, elem_of, _Top
+    from ..model import loc, norm, walk_no_nested
+
+    v = ctx.view(f"{cls}.add_edges")
+    n_found = 0
+    for n in walk_no_nested(v.fi.node):
+        if isinstance(n, ast.Compare) and len(n.ops) == 1 and isinstance(n.ops[0], (ast.NotEq, ast.Eq)):
+            for side in (n.left, n.comparators[0]):
+                if isinstance(side, ast.Call) and isinstance(side.func, ast.Name) and side.func.id == "len" and side.args and isinstance(side.args[0], ast.Call) and isinstance(side.args[0].func, ast.Name) and side.args[0].func.id == "set" and side.args[0].args:
+                    n_found += 1
+                    k = elem_of(v.kind(side.args[0].args[0]))
+                    has = isinstance(k, Tup) and any(isinstance(i, Atom) and i.name == component for i in k.items)
+                    only_nodes = isinstance(k, Seq) or (isinstance(k, Tup) and not any(isinstance(i, Atom) and i.name == component for i in k.items))
+                    status = "ok" if has else ("violation" if only_nodes else "unknown")
+                    res.add("K-UNIQ", v.fi.short, norm(n), component, status, "" if has else f"the uniqueness guard ranges over {k!r}: the same node set at two {component.lower()}s is rejected as a repeat", loc(v.fi, n))
+    if n_found == 0:
+        res.ok("K-UNIQ", v.fi.short, "no uniqueness guard", component, loc(v.fi, v.fi.node))
